@@ -128,7 +128,7 @@ CHECKS = {
     "C01": {
         "level": "exploration",
         "technique": "runtime monitoring: deterministic-schedule simulation of the real node code against a scripted peer with an online in-sync monitor and a convergence oracle under virtual (aged) time; cross-checked by real Node.Run over loopback TCP",
-        "level_text": "Hundreds (thorough: tens of thousands) of generated scenarios run the real header/block handlers, request state, repositories, ProcessBlock and check() in one goroutine against a scripted well-behaved peer: initial chains of 3-52 or 1000-4000 blocks (crossing the 2000-headers message and 1000-header file limits), start block early/middle/not yet mined, permuted and duplicated block replies, varying block-processor fairness, and steps over extend / reorg (depth <= 15, also among pending blocks and during sync) / clean restart / connection drop. At every settle point the node's full height->hash map must equal the peer's best chain after at most three aged time-out rounds (else a stall with the wire trace as witness); every HandleInSync is judged online against the blocks the node has been told about. Exploration: histories and schedules are unbounded; the schedule is chosen by the PRNG so each finding replays. A cross-check runs the same kind of history against the real Node.Run over loopback TCP (all goroutines; thorough tier also under the race detector). Generated steps include forks at a block the node has requested or queued (also the one in processing) and a block mined between the end of the headers and the in-sync point.",
+        "level_text": "Hundreds (thorough: tens of thousands) of generated scenarios run the real header/block handlers, request state, repositories, ProcessBlock and check() in one goroutine against a scripted well-behaved peer: initial chains of 3-52 or 1000-4000 blocks (crossing the 2000-headers message and 1000-header file limits), start block early/middle/not yet mined, permuted and duplicated block replies, varying block-processor fairness, and steps over extend / reorg (depth <= 15, also among pending blocks and during sync) / clean restart / connection drop. At every settle point the node's full height->hash map must equal the peer's best chain after at most three aged time-out rounds (else a stall with the wire trace as witness); every HandleInSync is judged online against the blocks the node has been told about. Exploration: histories and schedules are unbounded; the schedule is chosen by the PRNG so each finding replays. A cross-check runs the same kind of history against the real Node.Run over loopback TCP (all goroutines; thorough tier also under the race detector). Generated steps include forks at a block the node has requested or queued (also the one in processing) and a block mined between the end of the headers and the in-sync point. A quarter of the long scenarios end just above a header-file boundary, reorganise across it and return to the abandoned branch.",
         "level_note": "Trusted: the scripted peer as the model of a Bitcoin node (getheaders answered from the first known locator hash with up to 2000 headers, header announcements after sendheaders); virtual time by ageing stored request times through an overlay accessor; the harness re-issues the loop bodies of monitorIncoming/processBlocks/Run's reconnect (the L1 engine over real TCP cross-checks this).",
         "runs": [
             {"pkg": "internal/spynode", "test": "TestVerif_C01"},
